@@ -23,7 +23,7 @@ def jobs(tier):
                       bound='string body = prefix %s + %d symbolic bytes' % (pf.replace('\\\\', '\\'), ns)))
     for sub, first in NUM_STARTS:
         for i, pf in enumerate(NUM_PREFIXES[sub]):
-            J.append(dict(id='split_num_%d_%02d' % (sub, i), harness='h_split', props=['C03', 'C04'], unwind=max(9, len(pf) + ns + 5), defs=dict(KIND=1, SUB0=sub, PRE=cstr(first), PFX=cstr(pf), NS=ns), timeout=900, mem_gb=6,
+            J.append(dict(id='split_num_%d_%02d' % (sub, i), harness='h_split', props=['C03'], unwind=max(9, len(pf) + ns + 5), defs=dict(KIND=1, SUB0=sub, PRE=cstr(first), PFX=cstr(pf), NS=ns), timeout=900, mem_gb=6,
                           desc='parse_number: whole vs two-chunk delivery at every split point agree (error, consumed, saved state, buffered text, event)',
                           bound='number = %s%s + %d symbolic bytes' % (first, pf, ns)))
     return J
